@@ -64,6 +64,7 @@ type Bound = [Option<Ty>; 2];
 struct Builder<'a> {
     next_const: u128,
     next_ty: usize,
+    use_shape: usize,
     funcs: Vec<Item>,
     g: crate::gen::Gen<'a>,
 }
@@ -97,6 +98,19 @@ impl<'a> Builder<'a> {
         for i in 0..2 {
             if let Some(t) = &bound[i] {
                 self.g.probe(&Expr::var(Self::name(i)), t, out, 0);
+            }
+        }
+        // the same references inside compound expressions made of bare variables only
+        // (tuple, array, nested): the use site must not matter for what a name denotes
+        if let [Some(ta), Some(tb)] = bound {
+            self.use_shape += 1;
+            let (a, b) = (Expr::var("a"), Expr::var("b"));
+            match (self.use_shape % 3, ta == tb) {
+                (0, _) => self.g.probe(&Expr::Tuple(vec![a, b]), &Ty::Tuple(vec![ta.clone(), tb.clone()]), out, 0),
+                (1, true) => self.g.probe(&Expr::Array(vec![a, b]), &Ty::arr(ta.clone(), 2), out, 0),
+                (2, true) => self.g.probe(&Expr::Array(vec![b.clone(), a, b]), &Ty::arr(ta.clone(), 3), out, 0),
+                (1, false) => self.g.probe(&Expr::Tuple(vec![b, a.clone(), a]), &Ty::Tuple(vec![tb.clone(), ta.clone(), ta.clone()]), out, 0),
+                _ => self.g.probe(&Expr::Tuple(vec![Expr::Tuple(vec![a]), b]), &Ty::Tuple(vec![Ty::Tuple(vec![ta.clone()]), tb.clone()]), out, 0),
             }
         }
     }
@@ -312,7 +326,7 @@ pub fn run(cx: &mut Ctx) {
 
 fn one_structure(cx: &mut Ctx, structure: &[S], i: u64) {
     let g = prober(cx, false);
-    let mut b = Builder { next_const: (i % 200) as u128, next_ty: (i % 5) as usize, funcs: vec![], g };
+    let mut b = Builder { next_const: (i % 200) as u128, next_ty: (i % 5) as usize, use_shape: (i % 3) as usize, funcs: vec![], g };
     let mut bound: Bound = [None, None];
     let stmts = b.block(structure, &mut bound);
     let holes = b.g.prog.holes.clone();
